@@ -399,7 +399,7 @@ func (hs *clientHandshakeStateTLS13) processHelloRetryRequest() error {
 			for _, ext := range hs.uconn.Extensions {
 				// new ks seems to be generated either way
 				if ks, ok := ext.(*KeyShareExtension); ok {
-					ks.KeyShares = keyShares(hs.hello.keyShares).ToPublic()
+					ks.KeyShares = keyShares(hello.keyShares).ToPublic() // hello is the inner hello when ECH was accepted: it holds the new share
 					keyShareExtFound = true
 				}
 			}
